@@ -6,6 +6,10 @@ import os
 VERIF = os.path.dirname(os.path.dirname(os.path.abspath(__file__)))
 
 CLAIMED = {
+    "C13": dict(level="exploration", design="3/C13",
+                technique="deterministic simulation: seeded add_slide/notes histories over every corpus layout and package-level mutated layouts, interleaved with edits and checkpoint/restart; expectation from an independent parse of layout/master/notes-master XML",
+                text="Seeded search over slide-addition and notes-creation histories from every layout of every corpus deck and from layouts rewritten by a seeded mutator (new idx, every layout-legal type, vertical orientation, sizes, removed layout geometry), interleaved with other edits, saves and restarts; the new slide's placeholders (serialised XML and public API) are compared with the list and inherited geometry derived independently from the layout, master and notes-master XML.",
+                note="trusted: the XML reader/model in sim/props/c13.py incl. the documented master type mapping; mutated layouts never duplicate an idx"),
     "C18": dict(level="exploration", design="3/C18",
                 technique="deterministic simulation: seeded core-property assignment histories under a simulated clock (forward/backward jumps) with checkpoint/restart, stored-state generator of W3CDTF forms; value model + independent W3CDTF reader + OPC core-properties XSD",
                 text="Seeded search over assignment histories on the 15 core properties (boundary strings, datetimes across years 1..9999, revision values, wrong types) on decks with and without a core-properties part, the default part's timestamp being checked against the simulated clock under jumps, with saves and restarts; a reader arm feeds stored core.xml with every W3CDTF granularity and offsets in -14:00..+14:00; values are compared with a model, the part is validated against the OPC schema.",
